@@ -1223,7 +1223,11 @@ where
             // always true
             if let Some(ablob) = safe.active_blob.take() {
                 let ablob = (*ablob).into_inner();
-                ablob.fsyncdata().await?;
+                if let Err(e) = ablob.fsyncdata().await {
+                    // Blob must not be lost when sync fails: it stays active, its records stay readable
+                    safe.active_blob = Some(Box::new(ASRwLock::new(ablob)));
+                    return Err(e.into());
+                }
                 safe.blobs.write().await.push(ablob).await;
             }
             Ok(())
